@@ -65,11 +65,14 @@ def isProvisioned (c : Cluster) (o : Oid) : Bool := dictHas c.idle o
 /-- all machines reserved-idle, over all observations -/
 def idleAll (c : Cluster) : List Mid := (c.idle.map (·.2)).flatten
 
-/-- `check_ingest_capacity(pipeline_demand, max_ingest_resources)` -/
-def checkIngestCapacity (c : Cluster) (demand maxIngest : Nat) : Bool :=
+/-- `check_ingest_capacity(pipeline_demand, max_ingest_resources, reserved)`.  F14: `reserved` is the scheduler's reservation counter; what it promises beyond the machines already in
+the ingest pool (observations admitted earlier in the same telescope pass) is no longer free -/
+def checkIngestCapacity (c : Cluster) (demand maxIngest : Nat) (reserved : Int := 0) : Bool :=
   if demand > maxIngest then false
-  else if c.available.length ≥ demand ∧ c.ingest.length + demand ≤ maxIngest then true
-  else false
+  else
+    let promised : Int := if reserved - (c.ingest.length : Int) < 0 then 0 else reserved - (c.ingest.length : Int)
+    if (c.available.length : Int) - promised ≥ (demand : Int) ∧ c.ingest.length + demand ≤ maxIngest then true
+    else false
 
 /-- `is_idle()` (after the F1 repair) -/
 def isIdle (c : Cluster) : Bool :=
